@@ -100,7 +100,7 @@ theorem C12_readback_all_partial (fs : List (Nat × Val)) (hs : keysSpaced fs = 
   have hown := readQuads_deploy f.2 f.1 hwf hpos
   unfold readField
   rw [← hown]
-  apply readQuads_congr _ _ _ _ _ _ (fun h => Val.size_le_of_not_isRef h)
+  apply readQuads_congr _ _ _ _ _ _ (fun h => by have := Val.size_le_of_not_isRef h; omega)
   rw [slotCalc_zero f.1 f.2.size f.2.isRef hpos (fun h => Val.size_le_of_not_isRef h)]
   intro i hi
   have hn := Val.nslots_eq hwf hpos
